@@ -91,6 +91,37 @@ func H_C18_Pending() {
 	zzvrt.Cover("hub.end")
 }
 
+// H_C18_Api: a state report whose notification is still in its delay, then a pairing API call for the same SKI (register,
+// unregister, cancel: they change the stored detail in place and notify at once), then the delay elapses: the last
+// notification the application received shows the state the hub reports when asked.
+func H_C18_Api() {
+	e := newHubEnv()
+	h := e.h
+	svc := e.addService(skiA, "A")
+	h.hasStarted = zzvrt.Bool("hub.started")
+	initial := svc.ConnectionStateDetail().State()
+	n := 1 + zzvrt.Choice("reports", 2)
+	for i := 0; i < n; i++ {
+		h.HandleShipHandshakeStateUpdate(skiA, symState("st"))
+	}
+	switch zzvrt.Choice("api", 3) {
+	case 0:
+		h.RegisterRemoteSKI(skiA)
+	case 1:
+		h.UnregisterRemoteSKI(skiA)
+	case 2:
+		h.CancelPairingWithSKI(skiA)
+	}
+	zzvrt.RunSpawned("HandleShipHandshakeStateUpdate$1")
+	want := h.PairingDetailForSki(skiA).State()
+	seen := int(initial)
+	if got, ok := lastDetail(e); ok {
+		seen = got
+	}
+	zzvrt.Assert(seen == int(want), "C18.last-notification-differs-from-current-state")
+	zzvrt.Cover("hub.end")
+}
+
 // H_C18_Order: two state changes, both notification goroutines' delays have elapsed, every scheduling of the two:
 // the newest state is what the application has seen last.
 func H_C18_Order() {
